@@ -186,7 +186,7 @@ def cmp_c11(case, got):
         return [("building or querying the filterer failed: %s" % got.get("error"), "error")]
     bad = []
     cfg = "filters %s ignores %s exts %s whitelist %s ignore-file %s" % (
-        case["filters"], case["ignores"], ["o"] if case["exts"] else [], ["/".join(w) for w in case["whitelist"]], case["ignorefile"])
+        case["filters"], case["ignores"], case.get("extlist", ["o"] if case["exts"] else []), ["/".join(w) for w in case["whitelist"]], case["ignorefile"])
     for e, g in zip(case["expect"], got["pass"]):
         if g is not e["pass"]:
             ev = " + ".join("%s(%s)" % ("/".join(p["path"]), "typed" if p["ft"] == "known" else "untyped") for p in e["ev"]) or "(no path)"
